@@ -123,6 +123,7 @@ extern char g_san_last[512];                // signature of the last report
 // (SIGVTALRM = CPU budget exceeded).  After a non-zero return the process state is
 // tainted; the case must end.
 int guarded(const std::function<void()> &f, double cpu_seconds);
+int count_open_fds(std::string *what = nullptr);   // descriptors open now, harness/sanitizer-owned ones excluded
 void san_sync();                            // forget sanitizer reports nobody polled (case boundary)
 void dirty_stack();                         // pattern-fill the stack below the caller (see rt.cpp)
 extern bool g_tainted;
